@@ -14,9 +14,12 @@ Definition s_kind (s : site) : N := let '(_, _, k, _, _, _) := s in k.
 
 Definition in_ircmsgs (s : site) : bool := String.eqb (s_file s) "src/ircmsgs.py".
 
-(* Reviewed sites outside src/ircmsgs.py.  All but Utilities.let (a throw-away
-   message that is never sent) and Irc.feedMsg (emulated echo, fed back to the
-   bot, not sent) rebuild an *outgoing* message inside an outFilter: the text
+(* kind 2: IrcMsg(msg=m) and nothing else -- a pure copy (C06.Lemmas.ctor_copy: same prefix,
+   command, args and tags, hence the same line); t06.py classifies fail-closed on keywords *)
+Definition pure_copy (s : site) : bool := N.eqb (s_kind s) 2.
+
+(* Reviewed sites outside src/ircmsgs.py that override some field.  All but Irc.feedMsg
+   (emulated echo, fed back to the bot, not sent) rebuild an *outgoing* message inside an outFilter: the text
    they pass has been through the constructor check once and is then rewritten
    by a regexp / filter command.  They are exercised by the live outFilter
    exploration of the harness. *)
@@ -26,17 +29,16 @@ Definition reviewed_external : list site :=
    ("plugins/Filter/plugin.py", "Filter.outFilter", 1, "action", true, true);
    ("plugins/Google/plugin.py", "Google.outFilter", 1, "privmsg", true, true);
    ("plugins/ShrinkUrl/plugin.py", "ShrinkUrl._outFilterThread", 1, "privmsg", true, false);
-   ("plugins/Utilities/plugin.py", "Utilities.let", 0, "IrcMsg", false, false);
    ("src/irclib.py", "Irc.feedMsg", 0, "IrcMsg", false, false)]%string.
 
 Definition inventory_okb : bool :=
   (* inside ircmsgs.py: only the message makers forwarding their own msg= parameter *)
-  forallb (fun s => negb (in_ircmsgs s)
+  forallb (fun s => negb (in_ircmsgs s) || pure_copy s
                     || (N.eqb (s_kind s) 0 && existsb (String.eqb (s_func s)) gen.T06.MAKERS_WITH_MSG))
           gen.T06.MSGCTOR_SITES.
 
 Lemma inventory_external :
-  filter (fun s => negb (in_ircmsgs s)) gen.T06.MSGCTOR_SITES = reviewed_external.
+  filter (fun s => negb (in_ircmsgs s) && negb (pure_copy s)) gen.T06.MSGCTOR_SITES = reviewed_external.
 Proof. vm_compute. reflexivity. Qed.
 
 Lemma inventory_makers : inventory_okb = true.
@@ -45,13 +47,16 @@ Proof. vm_compute. reflexivity. Qed.
 Lemma inventory :
   forall s, In s gen.T06.MSGCTOR_SITES ->
   In s reviewed_external \/
-  (s_file s = "src/ircmsgs.py"%string /\ s_kind s = 0 /\ In (s_func s) gen.T06.MAKERS_WITH_MSG).
+  (s_file s = "src/ircmsgs.py"%string /\ s_kind s = 0 /\ In (s_func s) gen.T06.MAKERS_WITH_MSG) \/
+  s_kind s = 2.
 Proof.
-  intros s Hin. destruct (in_ircmsgs s) eqn:E.
-  - right. pose proof inventory_makers as H. unfold inventory_okb in H.
-    rewrite forallb_forall in H. specialize (H s Hin). rewrite E in H. cbn [negb orb] in H.
+  intros s Hin. destruct (pure_copy s) eqn:P.
+  { right. right. apply N.eqb_eq. exact P. }
+  destruct (in_ircmsgs s) eqn:E.
+  - right. left. pose proof inventory_makers as H. unfold inventory_okb in H.
+    rewrite forallb_forall in H. specialize (H s Hin). rewrite E, P in H. cbn [negb orb] in H.
     apply andb_true_iff in H as [H1 H2]. apply N.eqb_eq in H1.
     apply existsb_exists in H2 as [x [Hx Ex]]. apply String.eqb_eq in Ex. subst x.
     unfold in_ircmsgs in E. apply String.eqb_eq in E. auto.
-  - left. rewrite <- inventory_external. apply filter_In. rewrite E. auto.
+  - left. rewrite <- inventory_external. apply filter_In. rewrite E, P. auto.
 Qed.
